@@ -739,7 +739,10 @@ static int search_chunk(struct mschmd_header *chm,
     start       = &chunk[chm->chunk_size - 2];
     end         = &chunk[chm->chunk_size - qr_size];
     num_entries = EndGetI16(start);
-    qr_density  = 1 + (1 << chm->density);
+    /* density comes unchecked from the file: a shift count of 32 or more is
+     * undefined. No chunk holds 65536 entries, so beyond 16 the quick
+     * reference area degenerates to a single group anyway */
+    qr_density  = 1 + (1 << ((chm->density < 16) ? chm->density : 16));
     qr_entries  = (num_entries + qr_density-1) / qr_density;
 
     if (num_entries == 0) {
